@@ -131,14 +131,19 @@ impl Backend for Rasn {
             .collect();
         let mut non_derive_annotations = Vec::new();
         for cfg_annotation in config.type_annotations {
-            if let Ok((_, derives)) = parse_rust_derive_annotation(&cfg_annotation) {
+            // an element may hold several attributes: the leading derive attributes are merged,
+            // whatever follows them is kept as it is
+            let mut rest = cfg_annotation.as_str();
+            while let Ok((remaining, derives)) = parse_rust_derive_annotation(rest) {
                 for derive in derives {
                     if !required_derives.iter().any(|d| d == derive) {
                         required_derives.push(derive.to_owned());
                     }
                 }
-            } else {
-                non_derive_annotations.push(cfg_annotation);
+                rest = remaining;
+            }
+            if !rest.trim().is_empty() {
+                non_derive_annotations.push(rest.to_owned());
             }
         }
         config.type_annotations = non_derive_annotations;
@@ -333,11 +338,16 @@ impl Rasn {
 fn parse_rust_derive_annotation(input: &str) -> nom::IResult<&str, Vec<&str>> {
     use nom::{
         bytes::complete::tag,
-        character::complete::{alphanumeric1, char, multispace0},
+        bytes::complete::take_while1,
+        character::complete::{char, multispace0},
+        combinator::opt,
         multi::{many0, separated_list1},
         sequence::delimited,
         Parser as _,
     };
+
+    // a derive macro is named by a path: `Debug`, `serde::Serialize`, `Serialize_repr`
+    let derive_path = take_while1(|c: char| c.is_alphanumeric() || c == '_' || c == ':');
 
     delimited(
         (
@@ -351,8 +361,15 @@ fn parse_rust_derive_annotation(input: &str) -> nom::IResult<&str, Vec<&str>> {
             char('('),
             multispace0,
         ),
-        separated_list1(many0((multispace0, char(','), multispace0)), alphanumeric1),
-        (multispace0, char(')'), multispace0, char(']')),
+        separated_list1(many0((multispace0, char(','), multispace0)), derive_path),
+        (
+            multispace0,
+            opt(char(',')),
+            multispace0,
+            char(')'),
+            multispace0,
+            char(']'),
+        ),
     )
     .parse(input)
 }
